@@ -17,9 +17,43 @@ pub(crate) type Inst = crate::time::Instant;
 
 /// Harness bus parameters: fixed baud rate and slot time (the time lemmas in fdl_parameters.rs
 /// cover all baud rates and slot times); everything else symbolic within the builder's ranges.
-pub(crate) const BAUD: crate::Baudrate = crate::Baudrate::B500000;
-pub(crate) const RATE: u64 = 500_000;
 pub(crate) const SLOT_BITS: u16 = 300;
+
+/// Baud rate of the harness bus: concrete per harness (500 kbit/s unless the harness selects
+/// another one with `use_baud`), so that every time conversion constant-folds.
+pub(crate) static mut H_BAUD: crate::Baudrate = crate::Baudrate::B500000;
+
+pub(crate) fn use_baud(b: crate::Baudrate) {
+    unsafe {
+        H_BAUD = b;
+    }
+}
+
+pub(crate) fn baud() -> crate::Baudrate {
+    unsafe { H_BAUD }
+}
+
+/// bit/s of the harness baud rate (reference table, not the crate's)
+pub(crate) fn rate() -> u64 {
+    match baud() {
+        crate::Baudrate::B9600 => 9_600,
+        crate::Baudrate::B19200 => 19_200,
+        crate::Baudrate::B31250 => 31_250,
+        crate::Baudrate::B45450 => 45_450,
+        crate::Baudrate::B93750 => 93_750,
+        crate::Baudrate::B187500 => 187_500,
+        crate::Baudrate::B500000 => 500_000,
+        crate::Baudrate::B1500000 => 1_500_000,
+        crate::Baudrate::B3000000 => 3_000_000,
+        crate::Baudrate::B6000000 => 6_000_000,
+        crate::Baudrate::B12000000 => 12_000_000,
+    }
+}
+
+/// duration of `bits` bit times in whole microseconds, rounded down (the stack's clock resolution)
+pub(crate) fn bits_us(bits: u64) -> i64 {
+    (bits * 1_000_000 / rate()) as i64
+}
 
 pub(crate) fn any_params() -> Parameters {
     let address: u8 = kani::any();
@@ -29,7 +63,7 @@ pub(crate) fn any_params() -> Parameters {
     kani::assume(gap >= 1 && gap <= 100);
     Parameters {
         address,
-        baudrate: BAUD,
+        baudrate: baud(),
         slot_bits: SLOT_BITS,
         token_rotation_bits: 32436,
         gap_wait_rotations: gap,
@@ -210,12 +244,15 @@ fn c12_gap_lemma() {
 /// bytes) plus a tail, 16-byte transmit buffer.
 pub(crate) type Phy = TPhy<2, 3, 16>;
 
-pub(crate) const BIT_US: u64 = 1_000_000 / RATE; // 2 us per bit at the harness baud rate
-pub(crate) const T33_US: i64 = (33 * BIT_US) as i64;
-pub(crate) const TSLOT_US: i64 = (SLOT_BITS as u64 * BIT_US) as i64;
-
+pub(crate) fn t33_us() -> i64 {
+    bits_us(33)
+}
+pub(crate) fn tslot_us() -> i64 {
+    bits_us(SLOT_BITS as u64)
+}
 pub(crate) fn tto_us(ts: u8) -> i64 {
-    TSLOT_US * (6 + 2 * ts as i64)
+    // (6 + 2*address) slot times, converted as one bit count
+    bits_us(SLOT_BITS as u64 * (6 + 2 * ts as u64))
 }
 
 // ---- abstract TokenRing for the station-level harnesses ---------------------------------------
@@ -400,10 +437,10 @@ impl Pre {
         now.total_micros() - self.lba_eff(now).total_micros()
     }
     pub fn pause_over(&self, now: Inst) -> bool {
-        self.silence_us(now) > T33_US
+        self.silence_us(now) > t33_us()
     }
     pub fn slot_expired(&self, now: Inst) -> bool {
-        self.silence_us(now) > TSLOT_US
+        self.silence_us(now) > tslot_us()
     }
     pub fn token_lost(&self, now: Inst) -> bool {
         self.silence_us(now) >= tto_us(self.ts)
@@ -463,9 +500,9 @@ pub(crate) fn universal(pre: &Pre, st: &FdlActiveStation, phy: &impl PhyView, no
         let idle_us = now.total_micros() - l.unwrap().total_micros();
         assert!(idle_us > 0, "C01/sync-pause: a telegram starts after the end of the previous one");
         // exact arithmetic, up to the 1 us clock resolution: idle * rate >= 33 bit - 1 us
-        assert!((idle_us as u64) * RATE + RATE >= 33_000_000, "C01/sync-pause: every telegram starts at least 33 bit times after the end of the previous bus activity");
+        assert!((idle_us as u64) * rate() + rate() >= 33_000_000, "C01/sync-pause: every telegram starts at least 33 bit times after the end of the previous bus activity");
         assert!(!pre.new_bytes(), "C01/idle-after-rx: nothing is sent in a poll in which newly received bytes became visible");
-        let want = now.total_micros() + (11 * tx_len as u64 * 1_000_000 / RATE) as i64;
+        let want = now.total_micros() + bits_us(11 * tx_len as u64);
         assert!(st.last_bus_activity.map(|t| t.total_micros()) == Some(want), "C01/tx-accounted: the own transmission is accounted as bus activity until its last bit");
     } else if !pre.busy(now) && pre.new_bytes() && st.connectivity_state == ConnectivityState::Online {
         assert!(st.last_bus_activity.map(|t| t >= now).unwrap_or(false), "C01/rx-accounted: newly visible received bytes count as bus activity now");
@@ -1106,8 +1143,12 @@ l2_harness! {
 // UseToken / AwaitDataResponse with nondeterministic applications (C13, C15)
 // ==========================================================================================
 
-pub(crate) const TTR_US: i64 = 32436 * BIT_US as i64;
-pub(crate) const GAP_RESERVE_US: i64 = (SLOT_BITS as i64 + 100) * BIT_US as i64;
+pub(crate) fn ttr_us() -> i64 {
+    bits_us(32436)
+}
+pub(crate) fn gap_reserve_us() -> i64 {
+    bits_us(SLOT_BITS as u64 + 100)
+}
 
 fn any_use_token_data(napps: usize) -> UseTokenData {
     let first_app = if kani::any() {
@@ -1241,8 +1282,8 @@ fn step_use_token(log_on: bool, napps: usize) {
     // hold time bookkeeping on the first poll of a token visit
     let first_poll = pre.last_token_time != data.token_time;
     let want_end = if first_poll {
-        let reserve = if matches!(pre.gap, GapState::DoPoll { .. }) { GAP_RESERVE_US } else { 0 };
-        Inst::from_micros(pre.last_token_time.total_micros() + TTR_US - reserve)
+        let reserve = if matches!(pre.gap, GapState::DoPoll { .. }) { gap_reserve_us() } else { 0 };
+        Inst::from_micros(pre.last_token_time.total_micros() + ttr_us() - reserve)
     } else {
         pre.end_hold
     };
@@ -1327,8 +1368,8 @@ fn step_await_data_response(log_on: bool, napps: usize) {
     assert!(apps[who].to_calls == 1 && apps[who].rx_calls == 0 && apps[who].to_addr == address && apps[who].to_seq == 1, "C15/matched-reply: the time-out is delivered once, to the sender, before anything else happens");
     let first_poll = pre.last_token_time != data.token_time;
     let want_end = if first_poll {
-        let reserve = if matches!(pre.gap, GapState::DoPoll { .. }) { GAP_RESERVE_US } else { 0 };
-        Inst::from_micros(pre.last_token_time.total_micros() + TTR_US - reserve)
+        let reserve = if matches!(pre.gap, GapState::DoPoll { .. }) { gap_reserve_us() } else { 0 };
+        Inst::from_micros(pre.last_token_time.total_micros() + ttr_us() - reserve)
     } else {
         pre.end_hold
     };
@@ -1372,4 +1413,27 @@ l2_harness! {
 l2_harness! {
     #[kani::unwind(10)]
     fn l2_await_data_response_3apps_t() { step_await_data_response(false, 3) }
+}
+
+// ---- the same steps at 19.2 kbit/s: one bit time is 52.08 us, so every bit/time conversion
+// ---- rounds (at 500 kbit/s one bit is exactly 2 us and rounding paths are not exercised)
+l2_harness! {
+    #[kani::unwind(5)]
+    fn l2_listen_token_log_b19200() { use_baud(crate::Baudrate::B19200); step_listen_token(true) }
+}
+l2_harness! {
+    #[kani::unwind(5)]
+    fn l2_pass_token_log_b19200() { use_baud(crate::Baudrate::B19200); step_pass_token(true) }
+}
+l2_harness! {
+    #[kani::unwind(5)]
+    fn l2_check_token_pass_log_b19200() { use_baud(crate::Baudrate::B19200); step_check_token_pass(true) }
+}
+l2_harness! {
+    #[kani::unwind(10)]
+    fn l2_use_token_1app_b19200() { use_baud(crate::Baudrate::B19200); step_use_token(false, 1) }
+}
+l2_harness! {
+    #[kani::unwind(5)]
+    fn l2_active_idle_log_b45450() { use_baud(crate::Baudrate::B45450); step_active_idle(true) }
 }
